@@ -92,6 +92,16 @@ CHECKS = {
    note="Trusted: Lean kernel, standard axioms, harness. Partial: arbitrary whitespace runs / keyword case at character level rest on the lexer lemmas of Props/C06Lex.lean and the "
         "correspondence run; backend equality is executed, not proved. fix: 7c0cf2f (TRUE on SQLAlchemy), 531c925 (lower-case t/z).",
    design="§6 C19", technique="Lean 4 proof (style-generic round trip) + differential correspondence on re-spelled filters + executed backend comparison"),
+ "C20": dict(
+   text="Lean 4 theorems about the instance state machine of sly's lexer and parser (Model/Instances.lean): interleave_indep - in ANY schedule of two "
+        "tokenizers on one lexer instance each yields exactly the steps it yields alone; history_independent - after ANY history of parse calls "
+        "(including ones that raised) a probe gives what a fresh parser gives, because parse() resets every field the driver reads before reading "
+        "it (reset_clean; the driver started on a dirty instance would misbehave in the model). Executed: random histories on shared / partly "
+        "shared / new instances vs the model's parse and vs a process that never parsed anything, interleaved tokenizers, AliasRewriter with "
+        "used instances, probe digests under 5-10 PYTHONHASHSEED values and three import orders.",
+   note="Trusted: Lean kernel, standard axioms, harness. Partial: hash seed, import order, class-level / module-level state and SLY's table construction are runtime facts, "
+        "covered by execution only; the LR driver is abstracted to 'runs from the reset configuration'.",
+   design="§6 C20", technique="Lean 4 proof (induction over schedules / histories of an explicit instance state machine) + differential histories + fresh-process reference + subprocess digests"),
 }
 NOT_APPLICABLE = {}
 
